@@ -572,6 +572,7 @@ def _s3_case(ctx, rep, rng, model_ok, case_id, directed=None):
         return f"o{owner}|" + ",".join(f"{a}={'L' if provs[a].is_locked else '-'}" for a in acting)
 
     pending = {}
+    fail_delete = {}
 
     def hook(phase, op, key, kw):
         a = S.actor()
@@ -579,6 +580,9 @@ def _s3_case(ctx, rep, rng, model_ok, case_id, directed=None):
             return
         if phase == "before":
             S.gate(f"s3 {op}")
+            if op == "delete" and fail_delete.get(a):
+                fail_delete[a] -= 1
+                raise fakes3.client_error("InternalError", "DeleteObject")      # the release's DELETE fails transiently: the object stays
             call = api.get(a)
             if op == "put" and kw.get("IfNoneMatch"):
                 act = "create"
@@ -687,7 +691,9 @@ def _s3_case(ctx, rep, rng, model_ok, case_id, directed=None):
                                 # observe its loss, not write over the new owner's lock
                                 rep.violate("C19:renewal-overwrote-another-holders-lock", f"actor {a}'s renewal succeeded over a lock object last written by "
                                             f"actor {last_writer.get('prev')}", {"kind": "s3", "steps": list(steps)})
-                elif cmd == "release":
+                elif cmd in ("release", "release-delete-fails"):
+                    if cmd == "release-delete-fails":
+                        fail_delete[a] = 1
                     p.release()
                     acquired_at.pop(a, None)
             except Exception as e:      # noqa: BLE001
@@ -747,6 +753,15 @@ IS_HELD_AFTER_TAKEOVER = {
     "scripts": {1: ["acquire", "is_held", "pause", "is_held", "pause", "is_held"], 2: ["acquire", "is_held"]},
     # 1: create ; clock +59 ; 1 looks (still its own) ; clock +2 ; 2: create(fails) head takeover ; 1 looks again, twice ; 2 looks
     "order": [1, 1, ("tick", 59), 1, ("tick", 2), 2, 2, 2, 2, 1, 1, ("tick", 1), 1, 1, 2, 2],
+}
+
+
+OWN_OBJECT_LEFT_BEHIND = {
+    # 1 acquires; its release's DELETE fails (the object with 1's id stays); 61 s later 1 acquires again and 2 acquires right after:
+    # 1's second acquisition must be a REAL one (fresh lease), so 2 cannot take a 0-second-old lock over
+    "scripts": {1: ["acquire", "release-delete-fails", "pause", "acquire", "pause", "is_held"], 2: ["acquire", "is_held"]},
+    "order": [1, 1, 1, 1, ("tick", 61), 1, 1, 1, 1, 1, 2, 2, 2, 2, 2, 1, 1, 2],
+    "no_model": True,
 }
 
 
@@ -891,6 +906,7 @@ def run(ctx, model_ok):
             _s3_case(ctx, rep, rng, model_ok, -1, directed=RELEASE_SPANS_TAKEOVER)
             _s3_case(ctx, rep, rng, model_ok, -2, directed=RENEW_AFTER_TAKEOVER)
             _s3_case(ctx, rep, rng, model_ok, -3, directed=IS_HELD_AFTER_TAKEOVER)
+            _s3_case(ctx, rep, rng, False, -4, directed=OWN_OBJECT_LEFT_BEHIND)
         except sched.Stuck as e:
             rep.notes.append(f"directed s3 case stuck: {e}")
         for i in range(ctx.budget(40, 800)):
